@@ -18,6 +18,20 @@ fn case(src: &mut Src, ctx: &mut Ctx) -> Result<(), Fail> {
     w.strict_schedule = true;
     // generous horizon: faults end after a bounded number of frames; allow 3 h of virtual time
     let horizon: i64 = 3 * 3600 * 1_000_000;
+    // 1 in 4: the socket objects first carry another connection for a few hundred events, which both
+    // applications then abort; the connection that is judged runs on the same (reused) sockets and
+    // gets its own fault phase. Whatever the first connection left behind in a socket must not keep
+    // the second from making progress. (Decided from bits of a drawn seed: saved tapes keep their draws.)
+    let s0 = w.cfg.sides[0].stream_seed;
+    if (s0 >> 7) & 3 == 0 {
+        let first = 100 + ((s0 >> 9) % 400);
+        let _ = w.run(src, ctx, first, horizon)?;
+        w.restart();
+        w.events = 0;
+        w.stats.frames = [0, 0];
+        w.stats.fault_end_us = 0;
+        ctx.label("socket-objects-reused-after-abort");
+    }
     let end = w.run(src, ctx, 60_000, horizon)?;
     label_stats(&w, ctx);
     match end {
